@@ -102,6 +102,9 @@ def render_paths(pkg, paths, placement, special):
     return files
 
 
+STAGE_LISTS = [["analysis"], ["analysis", "store_inspect"], ["analysis", "store_inspect", "eval"], ["ANALYSIS"], ["analysis", "store_inspect", "eval", "store_commit"]]
+
+
 def family_a(tier):
     paths = all_paths()
     cases = []
@@ -123,7 +126,11 @@ def family_a(tier):
                 perms = perms[:: (1 if tier == "thorough" else 5)]
             for pi, perm in enumerate(perms):
                 placement = placements[(n + pi) % 8]
-                cases.append({"fam": "A", "paths": list(perm), "placement": placement, "special": (n + pi) % k})
+                c = {"fam": "A", "paths": list(perm), "placement": placement, "special": (n + pi) % k}
+                if ov and placement not in ("entrykeep", "entrydata") and (n + pi) % 3 == 0:
+                    # the ill-formed evaluation is requested as a dry run: it is rejected all the same
+                    c["stages"] = STAGE_LISTS[(n + pi) // 3 % len(STAGE_LISTS)]
+                cases.append(c)
     # extended alphabet: every overlapping triple (depth <= 2) in every order, and a stride of the prefix-free ones
     px = all_paths(SEGS_X, 2)
     m = 0
@@ -416,6 +423,8 @@ class Runner(object):
             res = self.w.call("eval", module=f"{pkg}.m0", func="root", style="keep", path=case["paths"][case["special"]])
         elif case["fam"] == "A" and case["placement"] == "entrydata":
             res = self.w.call("eval", module=f"{pkg}.m0", func="root", style="direct")
+        elif case.get("stages"):
+            res = self.w.call("eval", module=f"{pkg}.m0", func="root", style="eval", opts={"dds_stages": case["stages"]})
         else:
             res = self.w.call("eval", module=f"{pkg}.m0", func="root", style="eval")
         after = snapshot(self.store_dir)
